@@ -136,8 +136,16 @@ func runOne(t *testing.T, def *CheckDef, tier string, seed int64, tape *Tape, ke
 			r.simStart = time.Now()
 			r.driverID = goid()
 			def.Run(r)
+			r.bodyDone = true
 		})
 	}()
+	if r.bodyDone && strings.Contains(res.PanicMsg, "main bubble goroutine has exited but blocked goroutines remain") {
+		// The check ran to its end and every node was closed; a goroutine of the
+		// system under test is still blocked for good (it leaks). That is not a
+		// verdict about the property and not trouble of the harness: counted.
+		r.Count("teardown.goroutines-left-blocked")
+		res.PanicMsg = ""
+	}
 	r.fillResult(&res, def, keepTrace)
 	res.WallMs = time.Since(start).Milliseconds()
 	return res
